@@ -140,7 +140,9 @@ func runC05Device(c *core.Ctx) {
 			tr := &fdohttp.Transport{BaseURL: "http://fdo.test", Client: &http.Client{Transport: f}, MaxContentLength: limit}
 			tctx, tcancel := context.WithTimeout(ctx, 20*time.Second)
 			defer tcancel()
-			_, terr = fdo.TO2(tctx, tr, nil, dev.TO2Config(cf.kex, cf.cipher))
+			tcfg := dev.TO2Config(cf.kex, cf.cipher)
+			tcfg.AllowCredentialReuse = cf.reuse
+			_, terr = fdo.TO2(tctx, tr, nil, tcfg)
 			return terr, f, true
 		}
 		// the honest run tells which exchanges carry tunnelled replies
